@@ -1,3 +1,4 @@
+pub mod cache;
 pub mod client;
 
 use crate::core::runner::{CheckSpec, Scenario};
@@ -6,6 +7,7 @@ use std::sync::Arc;
 pub fn scenario_by_name(name: &str) -> Option<Arc<dyn Scenario>> {
     let s: Arc<dyn Scenario> = match name {
         "client" => Arc::new(client::ClientScn),
+        "cache" => Arc::new(cache::CacheScn),
         _ => return None,
     };
     Some(s)
@@ -17,6 +19,11 @@ pub fn check_spec(property: &str) -> Option<CheckSpec> {
             property: "C15",
             level: "exploration",
             scenarios: vec![(Arc::new(client::ClientScn), 60_000, 3_000_000)],
+        },
+        "C20" => CheckSpec {
+            property: "C20",
+            level: "exploration",
+            scenarios: vec![(Arc::new(cache::CacheScn), 40_000, 1_500_000)],
         },
         _ => return None,
     };
